@@ -446,6 +446,14 @@ def run_job(job, workdir):
                       for p in props[:3] + props[-2:]]
     if job.loop_contracts:
         out["loop_invariant_obligations"] = sum(1 for p in props if "loop_invariant" in p["property"] or "loop invariant" in p.get("description", ""))
+    # an unwinding assertion that fails means the chosen bound is too small for this code, not that a property is broken
+    uw = [f for f in out["failed"] if ".unwind." in f["name"] or f["desc"].startswith("unwinding assertion")]
+    if uw:
+        out["failed"] = [f for f in out["failed"] if f not in uw]
+        out["unwind_insufficient"] = [f["name"] for f in uw]
+        out["status"] = "error"
+        out["error"] = "unwinding bound too small (loop no longer within the stated bound): %s" % ", ".join(f["name"] for f in uw[:4])
+        return out
     out["status"] = "proved" if not out["failed"] else "failed"
     return out
 
@@ -635,7 +643,7 @@ class Check:
         return 0
 
 
-def main_wrapper(fn, pid):
+def main_wrapper(fn, pid, native_only=None):
     import argparse
     ap = argparse.ArgumentParser()
     ap.add_argument("--tier", default=os.environ.get("VERIF_TIER", "quick"))
@@ -647,10 +655,23 @@ def main_wrapper(fn, pid):
     try:
         rc = fn(chk, a.replay)
     except ExtractionError as e:
-        print("UNDECIDED property=%s reason=extraction %s" % (pid, e))
+        # The proof cannot be attempted (the code no longer has the shape the contracts were written for).  The native
+        # stages run the REAL code on concrete inputs and need no extracted text: a failure they find is a confirmed
+        # violation; otherwise the property is undecided.
         chk.undecided.append("extraction: %s" % e)
-        chk.evidence("undecided")
-        rc = 2
+        chk.jobs = []
+        if native_only is not None and not a.replay:
+            try:
+                native_only(chk)
+            except (Infra, ExtractionError) as e2:
+                chk.undecided.append("native-only stage: %s" % e2)
+        if chk.violations:
+            print("UNDECIDED-PROOF property=%s reason=extraction %s (violation below found by running the real code)" % (pid, e))
+            rc = chk.finish()
+        else:
+            print("UNDECIDED property=%s reason=extraction %s" % (pid, e))
+            chk.evidence("undecided")
+            rc = 2
     except Infra as e:
         print("UNDECIDED property=%s reason=infrastructure %s" % (pid, e))
         chk.undecided.append("infrastructure: %s" % e)
